@@ -477,8 +477,9 @@ class FileCache:
                         valid_entry = False
 
                     if not valid_entry:
-                        # remove the locally stored entry if not valid
-                        os.remove(filepath)
+                        # remove the locally stored entry (file and cache record) if
+                        # not valid
+                        self._remove_item_from_cache(hashkey)
                     else:
                         valid_entry = True
                 else:
